@@ -941,8 +941,13 @@ class RetrySender(object):
         self.pkt_type = pkt_type
         self.payload = payload
         self.callback = callback
+        self.done = False
 
     def __call__(self, success):
+        # the message may travel in several datagrams (it is also resent on
+        # the keep alive interval): only the first ack counts
+        if self.done:
+            return
         # keep re-trying until it succeeds
         if not success:
 
@@ -951,8 +956,10 @@ class RetrySender(object):
 
             self.conn.outgoing_messages.append(msg)
 
-        elif self.callback:
-            self.callback(True)
+        else:
+            self.done = True
+            if self.callback:
+                self.callback(True)
 
 class Bytes(bytes):
     seq = SeqNum()
